@@ -53,6 +53,8 @@ ARGSETS: dict[str, list[str]] = {
     "glob-rec": ["**/*.md"],
     "glob-sub": ["sub/*.md"],
     "mixed": ["sub", "*.md", "drafts/f.md"],
+    # a directory argument lying below a directory that the walk of an earlier argument prunes: it is walked in its own right
+    "overlap-pruned": [".", "node_modules", "sub/node_modules"],
 }
 
 
